@@ -276,6 +276,7 @@ void Executor::op_param(const Op& op, Obj& o) {
   auto snapshot = [&](std::vector<bool>& b, std::vector<int>& i, std::vector<double>& d) { b.clear(); i.clear(); d.clear(); for (int p = 0; p < pi.nbool; p++) b.push_back(s.getBool(p)); for (int p = 0; p < pi.nint; p++) i.push_back(s.getInt(p)); for (int p = 0; p < pi.nreal; p++) d.push_back(s.getReal(p)); };
   auto same = [&](const std::vector<bool>& b, const std::vector<int>& i, const std::vector<double>& d) { for (int p = 0; p < pi.nbool; p++) if (b[p] != s.getBool(p)) return "bool:" + pi.bname[p]; for (int p = 0; p < pi.nint; p++) if (i[p] != s.getInt(p)) return "int:" + pi.iname[p]; for (int p = 0; p < pi.nreal; p++) if (memcmp(&d[p], &(const double&)s.getReal(p), 8) && !(std::isnan(d[p]) && std::isnan(s.getReal(p)))) return "real:" + pi.rname[p]; return std::string(); };
   count("param:" + kind);
+  if (kind == "setbad" || kind == "parsebad") res_.nontrivial = true;   // an invalid value is the injected fault of a parameter history
   if (op.has("force") && kind != "setsettings") {
     std::string f = op.get("force"); std::vector<bool> b0; std::vector<int> i0; std::vector<double> d0; snapshot(b0, i0, d0);
     size_t eq = f.find('='); std::string nm = f.substr(0, eq), vv = eq == std::string::npos ? "" : f.substr(eq + 1); bool ok;
